@@ -21,6 +21,7 @@ candidate-pruning decisions), `bad` (malformed: non-restriction arguments -> Typ
 
 import itertools
 import json
+import os
 import re
 
 from .common import VERIF, Check, Err, Raw, cN, cbool, clist, cpair, cstr, cval, impl_call
@@ -366,14 +367,17 @@ def main(chk: Check):
             j = json.loads(f.read_text())
             descs.append(("corpus", j["repos"], _untuple(j["tree"])))
     shapes = shape_trees()
-    n_shapes = chk.n(500, len(shapes))
+    n_shapes = chk.n(400, len(shapes))
     if n_shapes < len(shapes):
         shapes = shapes[:60] + rng.sample(shapes[60:], n_shapes - 60)
     fixed = [{"a": {"x": [1, 2], "xy": [1]}, "ab": {"x": [3], "y": [1, 2]}, "b": {"z": [2], "yx": []}},
              {"a": {"x": [2], "y": [1]}, "ba": {"x": [1]}}]
     for i, t in enumerate(shapes):
         descs.append(("shapes", fixed[: 1 + (i % 2)], t))
-    for _ in range(chk.n(700, 12000)):
+    n_random = chk.n(600, 8000)
+    if os.environ.get("VERIF_C08_CAP"):      # self-test aid: bound the escalated budget
+        n_random = min(n_random, int(os.environ["VERIF_C08_CAP"]))
+    for _ in range(n_random):
         dicts = [gen_repo(rng) for _ in range(rng.choice([1, 1, 2, 3]))]
         descs.append(("query", dicts, gen_tree(rng, rng.choice([1, 2, 2, 3]))))
 
@@ -420,7 +424,7 @@ def main(chk: Check):
         r = chk.coq_eval("query", IMPORTS, "qinput", cases,
                          ["mismatches run_query cases",
                           "where_ (fun i r => negb (spec_query_ok i r)) cases",
-                          "where_ (fun i r => negb (spec_tuple_ok i r)) cases"], shard=150)
+                          "where_ (fun i r => negb (spec_tuple_ok i r)) cases"], shard=350)
         if r is not None:
             model_bad, spec_bad, spec_tup = r
         rb = chk.coq_eval("bad", IMPORTS, "N * N", bad_cases, ["mismatches run_bad cases"])
@@ -465,11 +469,16 @@ def main(chk: Check):
                       no_input=not reported)
 
 
+TAGS = ("leaf", "always", "neg", "node", "atom", "exact", "glob", "regex")
+
+
 def _untuple(t):
+    """tree descriptions read back from JSON: tagged lists become tuples again"""
     if isinstance(t, list):
-        return tuple(_untuple(x) if isinstance(x, list) and x and isinstance(x[0], str) and x[0] in
-                     ("leaf", "always", "neg", "node", "atom", "exact", "glob", "regex") else
-                     ([_untuple(y) for y in x] if isinstance(x, list) else x) for x in t)
+        conv = [_untuple(x) for x in t]
+        if conv and isinstance(conv[0], str) and conv[0] in TAGS:
+            return tuple(conv)
+        return conv
     return t
 
 
